@@ -4,7 +4,7 @@ from ..core import Violation
 from .. import pipeline, recvfeed, protocol, edgefeed, netfeed
 
 ID = 'C03'
-PROP_FILES = ['C03', 'C03Join', 'C03JoinMulti', 'EdgeRecv', 'EdgeSend', 'C03Edge', 'C03EdgeLive', 'ChainSend', 'ChainRecv', 'C03Net', 'C03Tree', 'RejoinRecv', 'C03Rejoin', 'IndepJoinInv', 'C03IndepJoin', 'IndepJoinSinkInv', 'C03IndepJoinSink', 'RejoinSkipRecv', 'RejoinSkipSend', 'C03RejoinSkip']
+PROP_FILES = ['C03', 'C03Join', 'C03JoinMulti', 'EdgeRecv', 'EdgeSend', 'C03Edge', 'C03EdgeLive', 'ChainSend', 'ChainRecv', 'C03Net', 'C03Tree', 'RejoinRecv', 'C03Rejoin', 'IndepJoinInv', 'C03IndepJoin', 'IndepJoinSinkInv', 'C03IndepJoinSink', 'RejoinSkipRecv', 'RejoinSkipSend', 'C03RejoinSkip', 'RejoinSinkInv', 'C03RejoinSink']
 MODULES = ['OFModel.Zmq.Receiver', 'OFModel.Zmq.Sender', 'OFModel.Zmq.Pair', 'OFModel.Zmq.PairReq', 'OFModel.Zmq.Net', 'OFModel.FilterLoop', 'OFModel.Gen.Facts']
 RULE = ('MQNet pipelines (real MQ/ZMQSender/ZMQReceiver objects, thread-less event loop, virtual time): topologies drawn from chain / tee / tee-rejoin (2-3 branches) / '
         'independent join with 3-7 filters, behaviours from {pass, None on chosen ids (not on rejoined branches), {}, lone Frame, callable, add/rename topic}, '
@@ -30,8 +30,8 @@ ASSUMPTIONS = ['partial: stage A component theorems are proved (publish-or-disca
                '_tracked_only_when_heard (handshake invariant, every event), C03_edge_progress (pair alone, connection up: [recv, send, recv, send, recv] returns frame n; a schedule is exhibited, fairness not proved), kernel-evaluated negative witnesses '
                'C03_edge_needs_required (required=[] + second client) and C03_edge_needs_new_flag (new flag dropped, pair alone) on the same step function, and C03_edge_pair_alone_any_required (in the pair ALONE outs_required is never exercised: '
                'nothing is published before some client is tracked and the only client is tracked only after it heard).  NOT modelled there: MQ.send wrapping frames in a callable (stage A3), multi-topic blocks, HWM, several consumers as full automata, restarts',
-               'stage C PROVED on the network model OFModel/Zmq/Net.lean for CHAINS (C03_net_chain_composition, OFProps/C03Net.lean) and TEES / TREES (C03_net_tree_composition, C03_net_tree_edge, OFProps/C03Tree.lean: node 0 the source, every other node subscribed to ONE earlier node, any number of consumers per publisher): arbitrary process functions whose results are dicts of distinct non-empty topic names (ProcNames), every restart-free schedule of recv i | send i @t (no bound, any clock readings): for every node the log of (id, [(topic, content)]) sets its process() was called with is a PREFIX of the source frames 0..N-1 threaded through the process functions on the path to it (Loop.processFrames normalisation: None drops the frame downstream, {} = empty set, lone Frame = main, callable = its value; hidden topics removed; ids = the source\'s consecutive ids of the surviving frames, handed on unchanged); C03_net_chain_deferred_at_send: the callable is evaluated only in the send that publishes its value (or frees the loop on None). Helper theorems send0_chain (exact outcome of one MQ.send) and call0_chain (single-source consumer over a queue of complete multi-topic blocks).  In Net delivery is immediate and every SUB connection is up from the start, so NO outs_required is needed there (a late consumer finds the blocks in its queue); required matters with the slow joiner, proved at edge level only (PairReq).  TEE-REJOIN (C03_net_rejoin_composition, OFProps/RejoinRecv.lean + C03Rejoin.lean): source, b >= 1 one-relay branches none of which returns None ({} allowed) and each publishing its own topic names, join subscribed to all branches: for every restart-free schedule the sets handed to the join are a PREFIX of: for n = 0,1,2,.. the set with id n holding every branch\'s output for the source\'s n-th surviving frame (all branches, same frame, none skipped, from frame 0); kernel-checked witness C03_net_rejoin_needs_noskip (a skipping branch: the join gets the common ids only), replayed on the real classes in every run.  INDEPENDENT JOIN (C03_net_indep_join_composition / _exact / _surviving / _no_fast_forward, OFProps/IndepJoinInv.lean + C03IndepJoin.lean): b >= 1 source filters each with its OWN frame counter (MQ.send passes state=None: the id is the ZMQSender\'s min_send_id), each publishing its own topic names, join subscribed to all of them: for every restart-free schedule the sets handed to the join are a PREFIX of: for n = 0,1,2,.. the set with id n holding, source after source, the visible topics of source i\'s n-th frame (no source returns None: NoSkipSrc); WITHOUT that hypothesis (_surviving) the n-th SURVIVING frames - a None at a source never reaches its sender, consumes no id, and no other source is fast-forwarded (per source: min_send_id = number of blocks published, published ++ held = its own surviving frames); kernel-checked witness C03_net_indep_join_needs_noskip, replayed on the real classes in every run.  With a SINK below the independent join (C03_net_indep_join_sink_composition / _surviving, OFProps/IndepJoinSinkInv.lean + C03IndepJoinSink.lean, topology sources -> join -> sink): the join\'s sets as above AND the sets handed to the sink are a PREFIX of the join\'s process function threaded through those sets (None of the join drops the id for the sink, ids handed on unchanged).  NOT proved at stage C: rejoins with skipping branches (common ids) or longer branches, a sink below a tee-REjoin, relays between the sources and an independent join, restarts, loss / HWM / connection timing',
-               'tee-REJOIN WITH SKIPPING BRANCHES (stage C): TEE-REJOIN WITH SKIPPING BRANCHES (C03_net_rejoin_common_ids, OFProps/RejoinSkipRecv.lean + RejoinSkipSend.lean + C03RejoinSkip.lean): NoSkip removed - any branch may return None (directly or as the value of its callable) for any set; hypotheses ProcNames, Owned and BranchCntFree (the result of a branch does not depend on its call counter); for every restart-free schedule the sets handed to the join are a PREFIX of rejoinSpecSkip: the surviving source frames of which EVERY branch makes a dict, in increasing order, each set holding the output of every branch for that very frame (never mixed, nothing common lost, nothing duplicated or reordered).  Covers the receiver path "newer id: adopt it, reset the other sources" on dynamic streams (SInv, take_sinv, call0_joinS) and the fast-forward path of the sender (send0_ffwd): the join asks every branch for the adopted id - 1, a branch still holding an older frame drops it unpublished, is fast-forwarded, and its receiver discards the source frames below the adopted id WITHOUT calling process() - all of them frames a sibling dropped.  That is why BranchCntFree is needed: kernel-checked witness C03_net_rejoin_skip_needs_cntfree (a branch that drops "its fourth set": the frames handed to the join depend on the schedule), and the fast-forward witness fSched is replayed on the real classes in every run (netfeed.rejoin_ffwd_witness) together with negative controls of the oracle (loss / mixed / duplicate).  NOT proved at stage C: rejoins with longer branches, a sink below the join, independent joins, restarts, loss / HWM / connection timing',
+               'stage C PROVED on the network model OFModel/Zmq/Net.lean for CHAINS (C03_net_chain_composition, OFProps/C03Net.lean) and TEES / TREES (C03_net_tree_composition, C03_net_tree_edge, OFProps/C03Tree.lean: node 0 the source, every other node subscribed to ONE earlier node, any number of consumers per publisher): arbitrary process functions whose results are dicts of distinct non-empty topic names (ProcNames), every restart-free schedule of recv i | send i @t (no bound, any clock readings): for every node the log of (id, [(topic, content)]) sets its process() was called with is a PREFIX of the source frames 0..N-1 threaded through the process functions on the path to it (Loop.processFrames normalisation: None drops the frame downstream, {} = empty set, lone Frame = main, callable = its value; hidden topics removed; ids = the source\'s consecutive ids of the surviving frames, handed on unchanged); C03_net_chain_deferred_at_send: the callable is evaluated only in the send that publishes its value (or frees the loop on None). Helper theorems send0_chain (exact outcome of one MQ.send) and call0_chain (single-source consumer over a queue of complete multi-topic blocks).  In Net delivery is immediate and every SUB connection is up from the start, so NO outs_required is needed there (a late consumer finds the blocks in its queue); required matters with the slow joiner, proved at edge level only (PairReq).  TEE-REJOIN (C03_net_rejoin_composition, OFProps/RejoinRecv.lean + C03Rejoin.lean): source, b >= 1 one-relay branches none of which returns None ({} allowed) and each publishing its own topic names, join subscribed to all branches: for every restart-free schedule the sets handed to the join are a PREFIX of: for n = 0,1,2,.. the set with id n holding every branch\'s output for the source\'s n-th surviving frame (all branches, same frame, none skipped, from frame 0); kernel-checked witness C03_net_rejoin_needs_noskip (a skipping branch: the join gets the common ids only), replayed on the real classes in every run.  INDEPENDENT JOIN (C03_net_indep_join_composition / _exact / _surviving / _no_fast_forward, OFProps/IndepJoinInv.lean + C03IndepJoin.lean): b >= 1 source filters each with its OWN frame counter (MQ.send passes state=None: the id is the ZMQSender\'s min_send_id), each publishing its own topic names, join subscribed to all of them: for every restart-free schedule the sets handed to the join are a PREFIX of: for n = 0,1,2,.. the set with id n holding, source after source, the visible topics of source i\'s n-th frame (no source returns None: NoSkipSrc); WITHOUT that hypothesis (_surviving) the n-th SURVIVING frames - a None at a source never reaches its sender, consumes no id, and no other source is fast-forwarded (per source: min_send_id = number of blocks published, published ++ held = its own surviving frames); kernel-checked witness C03_net_indep_join_needs_noskip, replayed on the real classes in every run.  With a SINK below the independent join (C03_net_indep_join_sink_composition / _surviving, OFProps/IndepJoinSinkInv.lean + C03IndepJoinSink.lean, topology sources -> join -> sink): the join\'s sets as above AND the sets handed to the sink are a PREFIX of the join\'s process function threaded through those sets (None of the join drops the id for the sink, ids handed on unchanged).  NOT proved at stage C: rejoins with longer branches, relays between the sources and an independent join, restarts, loss / HWM / connection timing (skipping branches and a sink below a tee-REjoin: next entry)',
+               'tee-REJOIN WITH SKIPPING BRANCHES (stage C): TEE-REJOIN WITH SKIPPING BRANCHES (C03_net_rejoin_common_ids, OFProps/RejoinSkipRecv.lean + RejoinSkipSend.lean + C03RejoinSkip.lean): NoSkip removed - any branch may return None (directly or as the value of its callable) for any set; hypotheses ProcNames, Owned and BranchCntFree (the result of a branch does not depend on its call counter); for every restart-free schedule the sets handed to the join are a PREFIX of rejoinSpecSkip: the surviving source frames of which EVERY branch makes a dict, in increasing order, each set holding the output of every branch for that very frame (never mixed, nothing common lost, nothing duplicated or reordered).  Covers the receiver path "newer id: adopt it, reset the other sources" on dynamic streams (SInv, take_sinv, call0_joinS) and the fast-forward path of the sender (send0_ffwd): the join asks every branch for the adopted id - 1, a branch still holding an older frame drops it unpublished, is fast-forwarded, and its receiver discards the source frames below the adopted id WITHOUT calling process() - all of them frames a sibling dropped.  That is why BranchCntFree is needed: kernel-checked witness C03_net_rejoin_skip_needs_cntfree (a branch that drops "its fourth set": the frames handed to the join depend on the schedule), and the fast-forward witness fSched is replayed on the real classes in every run (netfeed.rejoin_ffwd_witness) together with negative controls of the oracle (loss / mixed / duplicate).  With a SINK below the tee-rejoin (C03_net_rejoin_sink_composition / _run / _edge, OFProps/RejoinSinkInv.lean + C03RejoinSink.lean, topology source -> b branches -> join -> sink, same hypotheses, the process functions of join and sink arbitrary): the sets handed to the join are a PREFIX of rejoinSpecSkip AND the sets handed to the sink are a PREFIX of the join\'s process function threaded through those sets (throughFrom proc J 0 (rejoinSpecSkip ..), process_frames normalisation, hidden topics removed, None of the join drops the id for the sink, every set under the id of the common source frame it was computed from): the composition of ALL filters of the diamond-plus-sink.  Proof by SIMULATION: the diamond part of every reachable state is a state of rejoinTopo satisfying the invariant of C03_net_rejoin_common_ids (recv(state) with state <= prev_id + 1 is recv(None); the join is never fast-forwarded by its single-source sink, although the ids it publishes under jump over the non-common frames), plus the chain invariant for the edge join -> sink.  Kernel-checked witness C03_net_rejoin_sink_needs_cntfree (BranchCntFree: the loss shows at the sink); the Lean example gSched is replayed on the real classes in every run (netfeed.rejoin_sink_witness: join 0, 1, 6, 7, ..; sink 0, 1, 7, ..) with negative controls of the sink part of the oracle (loss / wrong id / duplicate / a set the join dropped).  NOT proved at stage C: rejoins with longer branches, relays below an independent join, restarts, loss / HWM / connection timing',
                'MQNet replaces Filter.loop_once by a 10-line replica around the real MQ object (every call timeout=0, re-armed each poll interval or on arrival); libzmq by the in-process fake',
                'message delays below the 100 ms request interval, lossless channels, no restarts (C03 hypotheses)']
 TRUSTED = ['composition reference = the same Python process functions applied to the source sequence (harness/ofverif/pipeline.py: reference)']
@@ -220,7 +220,7 @@ def chain_campaign(ctx, n):
                       netfeed.gen_rejoin_trial(rng) if k % 6 == 5 else (netfeed.gen_chain_trial(rng) if k % 3 else netfeed.gen_tree_trial(rng)))
     impl = [netfeed.run_impl(t) for t in trials]
     model = ctx.driver.batch([netfeed.model_request(t) for t in trials]) if ctx.driver and trials else None
-    sets = sink_sets = join_sets = ijoin_sets = ijoin_skipping = ijoin_sink_sets = ffwd_seen = 0
+    sets = sink_sets = join_sets = ijoin_sets = ijoin_skipping = ijoin_sink_sets = ffwd_seen = rsink_trials = rsink_sets = 0
     for idx, (t, (obs, handed, pubmid)) in enumerate(zip(trials, impl)):
         L = len(t['topo']['ups'])
         for key, what in netfeed.send_oracle(pubmid)[:1]:
@@ -240,6 +240,7 @@ def chain_campaign(ctx, n):
         if fam_ == 'teerejoin':
             J = next(i for i, u in enumerate(t['topo']['ups']) if len(u) > 1)
             join_sets += sum(1 for hd in handed if hd[1] == J)
+            if [J] in t['topo']['ups']: rsink_trials += 1; rsink_sets += sum(1 for hd in handed if hd[1] == t['topo']['ups'].index([J]))
             for br in t['topo']['ups'][J]:      # a branch whose handed ids have a gap was fast-forwarded (the source's ids are consecutive)
                 ids_ = [hd[2] for hd in handed if hd[1] == br]
                 if any(y != x + 1 for x, y in zip(ids_, ids_[1:])): ffwd_seen += 1; break
@@ -284,6 +285,27 @@ def chain_campaign(ctx, n):
         fr_ = ctx.driver.batch([netfeed.model_request(ft)])[0]
         if 'err' in fr_ or netfeed.canon_model(fr_, ft)[0][:len(fobs)] != netfeed.canon_impl(fobs):
             res.disagreements.append({'point': 'fast-forward witness: MQ objects vs OF.Net.step', 'case': {'feed': 'netchain-witness', 'trial': ft}, 'impl': None, 'model': fr_ if 'err' in fr_ else None})
+    # C03_net_rejoin_sink_composition on the real classes: the fast-forward run with a SINK below the join (Lean example `gSched`); the join returns None for the common frame 6
+    st_ = netfeed.rejoin_sink_witness()
+    sobs, shanded, _ = netfeed.run_impl(st_)
+    skeys = [k for k, _ in netfeed.rejoin_oracle(st_, sobs, shanded)]
+    sjids = [ident for idx, j, ident, fr in shanded if j == 3]
+    skids = [ident for idx, j, ident, fr in shanded if j == 4]
+    sb2 = [ident for idx, j, ident, fr in shanded if j == 2]
+    if skeys != [] or sjids[:5] != [0, 1, 6, 7, 8] or skids[:4] != [0, 1, 7, 8] or sb2[:5] != [0, 1, 2, 6, 7]:
+        res.disagreements.append({'point': 'witness "tee-rejoin with a sink, a stalled branch is fast-forwarded, the join drops the common frame 6": the join must be handed the common ids 0, 1, 6, 7, 8, ..., '
+                                           'the sink the ids 0, 1, 7, 8, ... (code changed?)', 'case': {'feed': 'netchain-witness', 'trial': st_},
+                                  'impl': {'keys': skeys, 'join': sjids[:6], 'sink': skids[:6], 'branch2': sb2[:6]}, 'model': {'keys': [], 'join': [0, 1, 6, 7, 8], 'sink': [0, 1, 7, 8], 'branch2': [0, 1, 2, 6, 7]}})
+    sctl = netfeed.rejoin_sink_controls(st_, sobs, shanded)
+    sctl_want = {k: ['net-rejoin-composition'] for k in ('sink-loss', 'sink-wrong-id', 'sink-duplicate', 'sink-undropped')}
+    if sctl != sctl_want:
+        res.disagreements.append({'point': 'negative controls of the sink part of the rejoin oracle (a set removed from / under a wrong id in / repeated in / a dropped set added to what the sink was handed): '
+                                           'the oracle must fire on each (oracle blind)', 'case': {'feed': 'netchain-witness', 'trial': st_}, 'impl': sctl, 'model': sctl_want})
+    if model is not None:
+        sr_ = ctx.driver.batch([netfeed.model_request(st_)])[0]
+        if 'err' in sr_ or netfeed.canon_model(sr_, st_)[0][:len(sobs)] != netfeed.canon_impl(sobs):
+            res.disagreements.append({'point': 'rejoin-with-sink witness: MQ objects vs OF.Net.step', 'case': {'feed': 'netchain-witness', 'trial': st_}, 'impl': None, 'model': sr_ if 'err' in sr_ else None})
+        else: res.traces_validated += 1
     # negative control (hypothesis NoSkipSrc of C03_net_indep_join_composition; Lean witness C03_net_indep_join_needs_noskip): a SOURCE that skips
     jt = netfeed.indep_join_skip_witness()
     jobs, jhanded, _ = netfeed.run_impl(jt)
@@ -308,7 +330,8 @@ def chain_campaign(ctx, n):
     res.extra['chain_stats'] = {'trials': len(trials), 'rejoin_skip_witness_ids': wids[:6], 'rejoin_ffwd_witness_ids': fids[:6], 'rejoin_oracle_controls': ctl,
                                 'trees': sum(1 for t in trials if t['topo'].get('family') == 'tree'),
                                 'rejoins': sum(1 for t in trials if t['topo'].get('family') == 'teerejoin'), 'rejoins_with_skipping_branches': len(skipping),
-                                'rejoin_branch_fast_forwarded': ffwd_seen, 'sets_at_joins': join_sets, 'sets_handed': sets, 'at_last_node': sink_sets}
+                                'rejoin_branch_fast_forwarded': ffwd_seen, 'rejoins_with_sink': rsink_trials, 'sets_at_sinks_below_rejoins': rsink_sets,
+                                'rejoin_sink_witness': {'join': sjids[:6], 'sink': skids[:6]}, 'rejoin_sink_oracle_controls': sctl, 'sets_at_joins': join_sets, 'sets_handed': sets, 'at_last_node': sink_sets}
 
 
 def run(ctx):
